@@ -1412,7 +1412,13 @@ static WBXMLError parse_content(WBXMLParser *parser, WBXMLBuffer **result)
         if ((ret = parse_opaque(parser, result)) != WBXML_OK)
             return ret;
 
-        return decode_opaque_content(parser, result);
+        if ((ret = decode_opaque_content(parser, result)) != WBXML_OK) {
+            /* Do not leak the opaque buffer when its typed decoding fails */
+            wbxml_buffer_destroy(*result);
+            *result = NULL;
+        }
+
+        return ret;
     }
 
     /* pi */
@@ -2035,7 +2041,13 @@ static WBXMLError parse_attr_value(WBXMLParser  *parser,
         if ((ret = parse_opaque(parser, result)) != WBXML_OK) 
             return ret;
         
-        return decode_opaque_attr_value(parser, result);
+        if ((ret = decode_opaque_attr_value(parser, result)) != WBXML_OK) {
+            /* Do not leak the opaque buffer when its typed decoding fails */
+            wbxml_buffer_destroy(*result);
+            *result = NULL;
+        }
+
+        return ret;
     }
   
   
